@@ -89,6 +89,29 @@ func faultMain(x *X) {
 	complete := x.Pre["complete"]
 	dry := x.R.Dry
 	st, eng, parts := buildEngine(c, op, c.Store)
+	// C17: a query that is created and closed without Exec opens no querier
+	if op.Remote == nil {
+		st.BeginOp(nil, nil)
+		for _, ps := range parts {
+			ps.BeginOp(nil, nil)
+		}
+		func() {
+			defer func() { _ = recover() }()
+			if q, err := newQuery(eng, st, op); err == nil {
+				sched_yield()
+				q.Close()
+				x.Probe("created-never-executed")
+			}
+		}()
+		opened := len(st.Acct().Queriers)
+		for _, ps := range parts {
+			opened += len(ps.Acct().Queriers)
+		}
+		if opened > 0 || st.Acct().N > 0 {
+			x.Viol("C17", "querier-opened-without-exec", "querier-opened-without-exec", fmt.Sprintf("%s: created and closed without Exec, yet %d queriers were opened (%d storage callbacks)", op.Q, opened, st.Acct().N))
+		}
+		x.S.Drain()
+	}
 	o := RunQuery(QueryRun{Op: op, Eng: eng, Store: st, Sim: x.S, Acct: st, Parts: parts, Contract: true})
 	x.R.Evals++
 	alive := x.S.Drain()
